@@ -68,11 +68,12 @@ Trusted base beyond lib/bigstub.rs, lib/ratio_types.rs, lib/ratio2_stubs.rs, lib
 VERUS = {
     'ratio_farey': {'file': 'ratio_farey.rs', 'w32': False},
     'float_error_bounds': {'file': 'float_error_bounds.rs', 'w32': False},
+    'float_error_bounds_halfeven': {'file': 'float_error_bounds_halfeven.rs', 'w32': False},
     'ratio_simplest': {'file': 'ratio_simplest.rs', 'w32': False},
 }
 
 PROP_UNITS = {
-    'C18': {'verus': ['ratio_farey', 'float_error_bounds', 'ratio_simplest'],
+    'C18': {'verus': ['ratio_farey', 'float_error_bounds', 'float_error_bounds_halfeven', 'ratio_simplest'],
             'undecided': ['next_up / next_down of an integer with limit == 1: excluded from the contract (debug-build '
                           'assertion failure in farey_neighbors, release result correct)',
                           'simplest_in with one end point zero and the other negative: excluded (returns 0, not strictly inside)',
